@@ -105,6 +105,9 @@ def type_function(ctx, rel, qual, attrs, label, extra_params=None, rule=None, co
         bad.setdefault(id(node), []).append((kind, node, detail))
 
     T = Typer(attrs, params, SIZE_NAMES, report, label, cond=cond)
+    # where there are no rf modes the full set and the non-rf set coincide; where there are only rf modes, full == rf
+    T.branch_equiv = {"self.rfsize": (None, ("N", "K")), "rfsize": (None, ("N", "K")),
+                      "notself.ksize": (("N", "RF"), None), "notksize": (("N", "RF"), None)}
     # `self._force` etc. published by generator()
     T.attrs.setdefault("self._force", Arr("N", None))
     T.run(fn.body)
